@@ -25,7 +25,11 @@ KEYS_STYLED = ["snake_case", "camelCase", "PascalCase", "kebab-case", "with spac
                "dataclass", "attr", "BaseModel", "Literal", "Optional", "Union", "Dict", "converter", "json",
                "schemaJson", "parseObj", "fromOrm", "updateForwardRefs", "convertStrings", "parseRaw", "SchemaJson",
                "isInstance", "hasAttr", "classMethod", "notImplemented", "baseException",
-               "lsep\u2028key", "nel\x85key", "vtab\x0bkey", "ffeed\x0ckey", "gsep\x1dkey"]
+               "lsep\u2028key", "nel\x85key", "vtab\x0bkey", "ffeed\x0ckey", "gsep\x1dkey",
+               # a non-printable character together with one outside the BMP (escaping decisions taken per string); the astral
+               # letters are of a cased script (Deseret) and NFKC-stable, as the key domain asks
+               "eta\xa0\U0001f680x", "total\u200d\U00010400 (net)", "zw\u200bsp\U0001f600ace", "bidi\u200emark\U00010428",
+               "nbsp\xa0only", "astral\U0001f680only"]
 KEYS_OUT = ["日本語a", "1abc", "0", "9lives", "_private", "__dunder__", "", "-", "日本", "***", " ", "fooBar", "foo_bar", "FooBar",
             "foo-bar", "😀"]
 
